@@ -158,7 +158,7 @@ pub fn property(tier: Tier) -> Property {
             panic_is_violation: true,
             render: |c: &Mixed| c.render(),
             rule: "e-graphs reached by insertions, unions (symmetric, redundant, self-referential recipes) and rewrite iterations; after every union/rewrite: every live class, every returned handle and two renamed invocations of it are extracted under AstSize, a position-weighted size and an operator-weighted size; membership, recomputed = reported = Bellman-Ford minimum, slot hygiene; non-trivial = a class with e-nodes of different cost or a cyclic class; distinct by rendered history",
-            case_timeout_s: tier.pick(120, 600),
+            case_timeout_s: tier.pick(30, 120),
             exhaustive: false,
         }));
     }
